@@ -67,3 +67,25 @@ build_gen_harness() {
       || { cat "$b/build.log"; tool_error "building genmc failed"; return 2; }
   build_cff "$b" || return 2
 }
+
+# build_racelit <builddir>: race litmus suite (native + rewritten) in one -race binary
+build_racelit() {
+  local b="$1"
+  ensure_rewriter || return 2
+  rm -rf "$b/rwr"; mkdir -p "$b/rwr" "$b/bin"
+  "$VERIF_DIR/build/bin/rewrite" -repo "$VERIF_REPO" -dir "$VERIF_DIR/harness" -out "$b/rwr" -vs "$VERIF_DIR/engine/vs" \
+      -pkgs ./racelit -pkgname racelitvs -mapto "$VERIF_DIR/harness/racelitvs" -overlay "$b/overlay-racelit.json" > "$b/rewrite-racelit.log" 2>&1 \
+      || { cat "$b/rewrite-racelit.log"; tool_error "rewriter failed on race litmus suite"; return 2; }
+  harness_modfile "$b"
+  (cd "$VERIF_DIR/harness" && go build -race -gcflags=go.uber.org/cff/zzverif/vs=-race=false -gcflags='verif/harness/...=-race=false' \
+      -gcflags=verif/harness/racelit=-race=true -gcflags=verif/harness/racelitvs=-race=true \
+      -modfile="$b/harness.mod" -overlay "$b/overlay-racelit.json" -o "$b/bin/racelitmc" ./cmd/racelitmc) > "$b/build-racelit.log" 2>&1 \
+      || { cat "$b/build-racelit.log"; tool_error "building racelitmc failed"; return 2; }
+}
+
+# run_racelit <builddir>
+run_racelit() {
+  local b="$1"
+  rm -rf "$b/racelit-log"; mkdir -p "$b/racelit-log"
+  VERIF_RACE_LOG="$b/racelit-log/race" GORACE="log_path=$b/racelit-log/race atexit_sleep_ms=0 halt_on_error=0 exitcode=0" "$b/bin/racelitmc"
+}
